@@ -323,11 +323,13 @@ class MutableAttrMap:
                     value = max(mod_values)
                 else:
                     value = min(mod_values)
+            # Values are applied in sorted order, so that floating point result
+            # does not depend on the order modifications were gathered in
             elif mod_operator in ADDITION_OPERATORS:
-                for mod_value in mod_values:
+                for mod_value in sorted(mod_values):
                     value += mod_value
             elif mod_operator in MULTIPLICATION_OPERATORS:
-                for mod_value in mod_values:
+                for mod_value in sorted(mod_values):
                     value *= 1 + mod_value
         # If attribute has upper cap, do not let its value to grow above it
         if attr.max_attr_id is not None:
